@@ -278,7 +278,7 @@ class StateTriggerDecorator(TriggerDecorator, ExpressionDecorator, AutoKwargsDec
 
                 if ident_any_values_changed(self.last_func_args, self.state_trig_ident_any):
                     trig_ok = True
-                elif ident_values_changed(self.last_func_args, self.state_trig_ident):
+                elif self.has_expression() and ident_values_changed(self.last_func_args, self.state_trig_ident):
                     trig_ok = await self._is_trig_ok()
                 else:
                     trig_ok = False
